@@ -17,13 +17,17 @@
    repaired code: the loop only moves the change to an unbounded queue (pend); a worker
    W takes it from there, copies the watched partitions under the read lock, releases
    it, proposes and waits.  Z never has to wait for W.
+   The proposer of "upd" (A or W) waits with a context that ends at shutdown only: Z has to answer every applied "upd",
+   also one that changes nothing (AnswerEveryUpd).
    TLC's deadlock check is the property: every reachable state that is not Done has a successor. *)
 EXTENDS Integers, Sequences, FiniteSets, TLC
 CONSTANTS Entries,      \* initial sequence of log entries for Z to apply: "create" | "conf"
           NotifCap,     \* capacity of the node-change notification channel (code: 10)
           UnderRepl,    \* TRUE: the loop proposes addPartitionNode on a node change
           WatchSendUnderLock,
-          InlineNodeChanges
+          InlineNodeChanges,
+          AnswerEveryUpd  \* TRUE (the code): applying "upd" always notifies its proposer; FALSE: an "upd" that changes
+                          \* nothing (the node already is a replica: a peer re-announced after a restart) returns early
 VARIABLES zq, zpc, apc, pmuW, pmuR, amuW, notif, handoff, waiting, wpc, pend
 vars == <<zq, zpc, apc, pmuW, pmuR, amuW, notif, handoff, waiting, wpc, pend>>
 Init == /\ zq = Entries /\ zpc = "idle" /\ apc = "select" /\ pmuW = FALSE /\ pmuR = 0
@@ -43,7 +47,7 @@ ZAddSend == /\ zpc = "addnode.send" /\ notif < NotifCap /\ notif' = notif + 1 /\
             /\ UNCHANGED <<zq, apc, pmuW, pmuR, amuW, handoff, waiting, wpc, pend>>
 ZAddUnlock == /\ zpc = "addnode.unlock" /\ amuW' = FALSE /\ zpc' = "idle" /\ zq' = Tail(zq)
               /\ UNCHANGED <<apc, pmuW, pmuR, notif, handoff, waiting, wpc, pend>>
-ZUpd == /\ zpc = "upd" /\ waiting' = FALSE /\ zpc' = "idle" /\ zq' = Tail(zq)
+ZUpd == /\ zpc = "upd" /\ waiting' = (IF AnswerEveryUpd THEN FALSE ELSE waiting) /\ zpc' = "idle" /\ zq' = Tail(zq)
         /\ UNCHANGED <<apc, pmuW, pmuR, amuW, notif, handoff, wpc, pend>>
 \* ---- A
 ARecvNode == /\ apc = "select" /\ notif > 0 /\ notif' = notif - 1
